@@ -4,7 +4,7 @@ import gen_bus
 
 RULE = ('python-random histories with every limit set to 1-3 in the configuration (completed connections, per-user connections '
         'with three uids, names, match rules, pending replies, message size): connect/Hello/close, RequestName/ReleaseName '
-        'with queues and replacement, AddMatch/RemoveMatch, unanswered calls to several callees, oversize messages, and in every second history one or two ReloadConfig calls that change all limits while the bus runs, every eleventh history fills max_incomplete_connections exactly and frees places by completion or by leaving; the model '
+        'with queues and replacement, AddMatch/RemoveMatch, unanswered calls to several callees, oversize messages (limits of 70000 and of 1700 / 1900 bytes -- below the size of one read --, messages whose header and body are each within the limit and only their sum is over it), and in every second history one or two ReloadConfig calls that change all limits while the bus runs, every eleventh history fills max_incomplete_connections exactly and frees places by completion or by leaving; the model '
         'refuses exactly the request that would exceed a limit and nothing else; distinct = distinct scenario texts')
 W = {'req': 4, 'rel': 2, 'query': 0.5, 'addmatch': 3, 'rmmatch': 1.5, 'signal': 0.5, 'call': 5, 'reply': 2,
      'usignal': 0.3, 'close': 1.5, 'driver_other': 0.1, 'nodest': 0.1, 'hello': 0.5, 'big': 0.3}
@@ -17,9 +17,14 @@ def gen(rng, i):
         return c10.at_the_incomplete_limit(rng)
     cfg = {'maxNames': rng.choice([2, 3, 4]), 'maxMatch': rng.choice([1, 2, 3]), 'maxReplies': rng.choice([1, 2, 3]),
            'maxCompleted': rng.choice([2, 3, 4, 100000]), 'maxPerUser': rng.choice([1, 2, 3, 100000]),
-           'maxMsgSize': 70000}
+           # (a limit below the size of one read: an oversize message then arrives whole, in one piece)
+           'maxMsgSize': rng.choice([70000, 70000, 1700, 1900])}
     g = gen_bus.Gen(rng, nslots=5, nnames=3, uids=(0, 1000, 65534), w=W, cfg=cfg, odd_rules=0.05)
     scn = g.scenario(nrounds=rng.choice([12, 16]), concurrency=0.35, burst=0.3, late_hello=0.2)
+    if cfg['maxMsgSize'] < 2000:
+        # one message that arrives whole in a single read and is over the limit only by the SUM of header and body
+        at = rng.randrange(len(g.slots), len(scn['rounds']) + 1)
+        scn['rounds'].insert(at, {'ops': {str(rng.choice(g.slots)): [{'k': 'big', 'n': cfg['maxMsgSize'] - rng.choice([8, 40, 60])}]}})
     # the limits change while the bus runs (ReloadConfig): what exists stays, the new values decide from then on
     if i % 2 == 0:
         for _ in range(rng.choice([1, 2])):
